@@ -350,7 +350,7 @@ def apply_element(key, args, ctx=None, inputs=(), timeout=10.0):
     return stack, exc, ctx
 
 
-def pyval(v, limit=4096):
+def pyval(v, limit=4096, depth=0):
     """Plain-Python rendering of a Vyxal value: int / Fraction / str / nested list.
     LazyLists are forced (up to limit items)."""
     import types
@@ -359,6 +359,8 @@ def pyval(v, limit=4096):
     import sympy
     from vyxal.LazyList import LazyList
 
+    if depth > 12:
+        return ("deep",)
     if isinstance(v, bool):
         return int(v)
     if isinstance(v, int):
@@ -375,11 +377,11 @@ def pyval(v, limit=4096):
         out = []
         i = 0
         while i < limit and v.has_ind(i):
-            out.append(pyval(v.generated[i], limit))
+            out.append(pyval(v.generated[i], limit, depth + 1))
             i += 1
         return out
     if isinstance(v, (list, tuple)):
-        return [pyval(x, limit) for x in v]
+        return [pyval(x, limit, depth + 1) for x in v]
     if isinstance(v, types.FunctionType):
         return ("fn",)
     if isinstance(v, float):
